@@ -69,6 +69,10 @@ def one_case(ck, I, rng, t, RecF, RecJ, coq):
         c = RecF(G.build_fits_wcs(I, g))
     else:
         g = G.gen_gwcs_geom(rng, t // 2)
+        if (t // 2) % 3 == 1:
+            # distorted detector -> V2V3 map: the local scale varies over the detector (by a few percent)
+            g = dict(g, distort=rng.choice([2.0 ** -14, -2.0 ** -14, 2.0 ** -15]))
+        ck.count('gwcs_detector_distortion', g.get('distort', 0.0))
         c = RecJ(G.build_gwcs(I, g), G.gwcs_info(g))
     unit = G.pix_scale_arcsec(g) / G.tan_scale_arcsec(g)
     nx, ny = g['shape']
